@@ -228,7 +228,7 @@ def _worker_main(widx: int, conn, sim_name: str, prop: str, cfg: dict, stop_flag
                     tr = trace
                     res = execute(sim, prop, seed, spec_seed, c, replay=tr)
                 faulthandler.cancel_dump_traceback_later()
-                conn.send(("shrunk", seed, tr, n, res))
+                conn.send(("shrunk", (seed, signature), tr, n, res))
     except (EOFError, BrokenPipeError, KeyboardInterrupt):
         pass
     except BaseException:
@@ -476,7 +476,7 @@ def run_check(prop: str, sim_name: str, tier: str, cfg: dict, meta: dict) -> int
             for j, (sig, ss) in enumerate(sigs):
                 s = ss[0]
                 sq[j % nworkers].append(("shrink", s, spec_seed_of[s], results[s]["trace"], sig, budget))
-            shrunk: dict[int, tuple] = {}
+            shrunk: dict = {}
 
             def on_shrunk(msg, task):
                 if msg[0] == "shrunk":
@@ -487,7 +487,7 @@ def run_check(prop: str, sim_name: str, tier: str, cfg: dict, meta: dict) -> int
             for j, (sig, ss) in enumerate(unknown.items()):
                 s = ss[0]
                 r = results[s]
-                tr, nexec, rmin = shrunk.get(s, (r["trace"], 0, r))
+                tr, nexec, rmin = shrunk.get((s, sig), (r["trace"], 0, r))
                 vmin = [v for v in rmin["violations"] if v["signature"] == sig]
                 safe = sig.replace("/", "_").replace(":", "_").replace(" ", "_")[:80]
                 path = os.path.join(VERIF, "replays", "%s-%d-%s.json" % (prop, s, safe))
